@@ -4,7 +4,7 @@ From Coq Require Import ZArith Reals List Bool Sorted.
 From PW Require Import Num NumR Vec NpList Result.
 From PW.model Require Import M_slicing.
 From Coq Require Import Permutation.
-From PW.proofs Require Import P_slicing P_slicing_face P_slicing_cover P_slicing_mesh P_slicing_perface.
+From PW.proofs Require Import P_slicing P_slicing_face P_slicing_cover P_slicing_compl P_slicing_mesh P_slicing_perface P_slicing_idem.
 Import ListNotations.
 
 (* renumbering by bin counting: unique is the strictly increasing list of the values that occur, and
@@ -54,36 +54,51 @@ Proof. intros nvs fs H. exact (proj2 (proj2 (renumber_spec nvs fs H))). Qed.
 (* provenance: output face j lies in the plane and outline of input face mapping[j] — the pairs (mapping[j], triangle j)
    are exactly the (i, t') with t' produced by the per-face kernel from face i (C01_slice_mesh_is_per_face), and every
    such t' lies inside face i (C01_slice_face_sound); restated here for the pipeline on resolved rows *)
-Theorem C02_slice_provenance : forall eps n o vs (fds : list (@fdata R)),
+Theorem C02_slice_provenance : forall eps vs (fds : list (@fdata R)),
   (forall d, In d fds -> fd_wf vs d) ->
   Permutation
-    (zip (mo_map (slice_fds ROps eps n o vs fds))
-         (mesh_tris (mo_v (slice_fds ROps eps n o vs fds)) (mo_f (slice_fds ROps eps n o vs fds))))
-    (flat_map (per_face eps n o) (indexed fds)).
+    (zip (mo_map (slice_fds ROps eps vs fds))
+         (mesh_tris (mo_v (slice_fds ROps eps vs fds)) (mo_f (slice_fds ROps eps vs fds))))
+    (flat_map (per_face eps) (indexed fds)).
 Proof. exact slice_fds_per_face. Qed.
 
-(* the multiset of returned coordinate triangles depends only on the rows (corner coordinates, corner signs, mask bit):
+(* the multiset of returned coordinate triangles depends only on the rows (corner coordinates, snapped corner distances, corner signs, mask bit):
    not on the order of the faces, not on how the vertices are numbered, not on unreferenced vertices *)
-Theorem C02_slice_perm_relabel_invariant : forall eps n o vs vs' (fds fds' : list (@fdata R)),
+Theorem C02_slice_perm_relabel_invariant : forall eps vs vs' (fds fds' : list (@fdata R)),
   (forall d, In d fds -> fd_wf vs d) -> (forall d, In d fds' -> fd_wf vs' d) ->
   Permutation (map fd_row fds) (map fd_row fds') ->
-  Permutation (mesh_tris (mo_v (slice_fds ROps eps n o vs fds)) (mo_f (slice_fds ROps eps n o vs fds)))
-              (mesh_tris (mo_v (slice_fds ROps eps n o vs' fds')) (mo_f (slice_fds ROps eps n o vs' fds'))).
+  Permutation (mesh_tris (mo_v (slice_fds ROps eps vs fds)) (mo_f (slice_fds ROps eps vs fds)))
+              (mesh_tris (mo_v (slice_fds ROps eps vs' fds')) (mo_f (slice_fds ROps eps vs' fds'))).
 Proof. exact slice_perm_relabel_invariant. Qed.
 
-(* idempotence, face by face: a triangle produced from a selected face is wholly on or in front, so slicing it again with
-   the same plane returns it unchanged.  PARTIAL: the composition with C01_slice_mesh_is_per_face for the second call
-   (mesh-level statement) is not carried out in Coq; the re-slice is checked on the implementation by the oracle. *)
-Theorem C02_slice_idempotent_per_face_partial : forall tol eps n o t t', (0 <= tol)%R -> H0 tol n o t ->
+(* idempotence: slicing the result again with the same plane (all faces selected both times) returns the same multiset of
+   coordinate triangles — for all meshes and planes; and face by face: a triangle produced from a selected face is wholly on
+   or in front (true offsets >= -tol), so the kernel hands it back unchanged whether selected or not *)
+Theorem C02_slice_idempotent : forall tol eps vs fs n o r r2, (0 <= tol)%R -> vs <> [] ->
+  slice_faces_plane ROps tol eps vs fs n o None = Ok r ->
+  slice_faces_plane ROps tol eps (mo_v r) (mo_f r) n o None = Ok r2 ->
+  Permutation (mesh_tris (mo_v r2) (mo_f r2)) (mesh_tris (mo_v r) (mo_f r)).
+Proof. exact slice_idempotent. Qed.
+Theorem C02_slice_idempotent_per_face : forall tol eps n o t t', (0 <= tol)%R ->
   In t' (slice_face ROps tol eps n o true t) -> forall m', slice_face ROps tol eps n o m' t' = [t'].
 Proof. exact slice_face_idempotent. Qed.
 
-(* complement.  PARTIAL: for either plane the kept vector area of a face is a fraction in [0,1] of the face's vector area
-   (here for the plane as given; the flipped plane is the same statement with the normal negated); that the two
-   fractions add up to 1 (2 for a face lying in the plane) is not proved, it is checked face by face by the oracle. *)
-Theorem C02_slice_complement_partial : forall tol eps n o m t, (0 <= tol)%R -> H0 tol n o t ->
-  exists f, (0 <= f <= 1)%R /\ vsum_normals (slice_face ROps tol eps n o m t) = vscale ROps f (tri_normal t).
-Proof. exact slice_face_area. Qed.
+(* complement, face by face: the vector area kept in front of the plane plus the vector area kept behind it (the call with the
+   flipped plane) is the face's vector area; twice that for a face whose three corners all count as lying on the plane, which
+   both calls keep.  on3 tol n o t: every corner's true offset is within tol. *)
+Theorem C02_slice_complement : forall tol eps n o t, (0 <= tol)%R ->
+  (on3 tol n o t ->
+     vadd ROps (vsum_normals (slice_face ROps tol eps n o true t))
+               (vsum_normals (slice_face ROps tol eps (vneg ROps n) o true t)) = vscale ROps 2%R (tri_normal t)) /\
+  (~ on3 tol n o t ->
+     vadd ROps (vsum_normals (slice_face ROps tol eps n o true t))
+               (vsum_normals (slice_face ROps tol eps (vneg ROps n) o true t)) = vscale ROps 1%R (tri_normal t)).
+Proof. exact slice_face_complement. Qed.
+(* the kept fractions themselves: f(ds) + f(-ds) = 1 (2 when all three snapped distances are 0), all 27 corner classes *)
+Theorem C02_kept_fractions_complement : forall tol ds, (0 <= tol)%R -> snapped3 tol ds ->
+  (all_zero ds -> kept_frac tol ds + kept_frac tol (negd ds) = 2)%R /\
+  (~ all_zero ds -> kept_frac tol ds + kept_frac tol (negd ds) = 1)%R.
+Proof. exact frac_complement. Qed.
 
 (* non-vacuity of the wholly-behind clause *)
 Example C02_all_behind_inhabited :
@@ -96,5 +111,5 @@ Qed.
 
 Definition C02_all := (C02_unique_bincount_spec, C02_unique_bincount_onto, C02_slice_mapping_len, C02_slice_empty,
   C02_slice_indices_valid_no_orphans, C02_renumber_keeps_coordinates, C02_slice_provenance, C02_slice_perm_relabel_invariant,
-  C02_slice_idempotent_per_face_partial, C02_slice_complement_partial).
+  C02_slice_idempotent, C02_slice_idempotent_per_face, C02_slice_complement, C02_kept_fractions_complement).
 Print Assumptions C02_all.
